@@ -5,7 +5,7 @@
    what was observed. *)
 From Coq Require Import String.
 From Rend Require Import base.Bytes base.Harness gen.Consts_gen spec.MapSpec orca.Types
-  handlers.ChunkFmt handlers.Chunked handlers.ChunkedSpec handlers.ChunkedFaults checks.Check04.
+  handlers.ChunkFmt handlers.Chunked handlers.ChunkedSpec handlers.ChunkedFaults handlers.ChunkedFaultsSpec checks.Check04.
 Open Scope N_scope.
 
 Record case10h := mkC10h {
@@ -45,14 +45,9 @@ Definition gres_isb (g : gres) (v : option (bytes * N)) : bool :=
   | Some (d, f) => negb (g_miss g) && bytes_eqb (g_data g) d && (g_flags g =? f)
   | None => g_miss g end.
 
-(* the reply a fault-free read of key k owes a client, given the backend contents *)
-Definition owed (st : store) (now : N) (k : bytes) (opq : N) : hres :=
-  HVals [match abs_entry st now k with
-         | Some e => mkGR k (e_data e) (e_flags e) 0 opq false false
-         | None => match live now st (meta_key k) with
-                   | Some me => mkGR k [] (m_flags (dec_meta (e_data me))) 0 opq false true
-                   | None => mkGR k [] 0 0 opq false true end
-         end] None.
+(* the reply a fault-free read of key k owes a client, given the backend contents
+   (c10_chunked_read_is_abs: owed_item of handlers/ChunkedFaultsSpec.v) *)
+Definition owed (st : store) (now : N) (k : bytes) (opq : N) : hres := HVals [owed_item st now k opq false] None.
 
 Definition req_key10 (q : hreq) : bytes := match req_keys q with k :: _ => k | [] => [] end.
 
